@@ -23,7 +23,11 @@ func (af *AssetFunc) Func(ctx context.Context) interface{} {
 	return func(asset pugjs.String) template.URL {
 		// let webpack dev server handle URL's
 		// deprecated
-		if af.Engine.Webpackserver {
+		// LoadTemplates sets the flag under the engine's write lock (in debug mode on every render)
+		af.Engine.RLock()
+		webpackserver := af.Engine.Webpackserver
+		af.Engine.RUnlock()
+		if webpackserver {
 			return template.URL("/assets/" + asset)
 		}
 
